@@ -128,6 +128,11 @@ def checkProduced (env : Env) (cfg : Cfg) (first : Bool) (conf : St) (b : Block)
   (if rewards.length != 1 then [s!"C11 produced block has {rewards.length} rewards"] else []) ++
   (if rewards.any (fun r => r.rewardRecipient != cfg.validator) then ["C11 reward not paid to the producer's address"] else []) ++
   (if ids.eraseDups.length != ids.length then ["C11 transaction twice in a produced block"] else []) ++
+  -- C10 at production: a yielding output goes to an address registered in the chain's confirmed state (every earlier
+  -- block applied, the previous tip included) or listed by the block as newly registered
+  ((b.txs.flatMap (fun t => t.outputs)).filter
+      (fun o => o.yielding && !conf.reg.contains o.address && !b.addedL.contains o.address)).map
+    (fun o => s!"C10 produced-block-yields-to-an-address-neither-registered-nor-listed {o.address}") ++
   (match blockFees env conf.live b with
    | none => ["C11 produced block does not replay on the producer's confirmed outputs"]
    | some fees =>
